@@ -324,6 +324,8 @@ def apply(s, a):
         elif p == "L_integ": L.integrator = integ(v, 0.01)
         elif p == "L_importance": L.importance = 1.0 if v == 1 else 2.0
         elif p == "L_xf": L.transform = xf("L_xf", v)
+        elif p == "B_plasma": B.plasma = P
+        elif p == "L_plasma": L.plasma = P
         else: raise KeyError(p)
         s.cfg[p] = v
     elif op == "models_add":          # ModelManager.add / clear front-ends
@@ -387,4 +389,5 @@ def same(a, b):
     return True
 
 
-DEFAULT = {p: 1 for p in PARAMS}
+REPOINT = ["B_plasma", "L_plasma"]
+DEFAULT = {p: 1 for p in PARAMS + REPOINT}
